@@ -98,11 +98,12 @@ def c_state_corr(ctx, args):
 def c_rotmap(ctx, args):
     """the map of a rotation acts as the rotation: transform_by(clifford_rotation_map(G)) == rotate_by(G) on every operand (through the implementation; the two paths
     share no arithmetic: the map path multiplies listed images, the rotation path adds one product phase)"""
-    be, g, l = args
+    be, g, l = args[:3]
+    mask = args[3] if len(args) > 3 else None
     I = impl(be).OPS
-    a = I['rotate'](g, None, l)
+    a = I['rotate'](g, mask, l)
     m = I['rotation_map'](g)
-    b = I['transform'](m, None, l)
+    b = I['transform'](m, mask, l)
     if norm(a) != norm(b):
         return {'kind': 'oracle', 'where': be + ':transform_by(clifford_rotation_map(G)) differs from rotate_by(G)', 'observed': norm(b), 'expected': norm(a), 'generator': g, 'tags': ['rotmap']}
     return None
@@ -156,3 +157,10 @@ def run(ctx):
             g = [[b for _ in range(n) for b in rng.choice([(1, 0), (0, 1), (1, 1)])], g[1]]
         l = gen.rplist(rng, n, 4) + [[[b for _ in range(n) for b in rng.choice([(1, 0), (0, 1), (1, 1)])], rng.randint(0, 3)]]
         do(ctx, 'rotmap', [rng.choice(backends), g, l], nontrivial=('rm', ctx.res.evaluations))
+    # the same through a mask: a generator (either sign) on a sub-register against its rotation map on the same sub-register
+    for _ in range(int(150 * B)):
+        N = rng.randint(2, 6)
+        k = rng.randint(1, N - 1)
+        mask = gen.rmask(rng, N, k)[0]
+        g = gen.rpauli(rng, k, herm=True, nonzero=True)
+        do(ctx, 'rotmap', [rng.choice(backends), g, gen.rplist(rng, N, 4), mask], nontrivial=('rmm', ctx.res.evaluations))
